@@ -247,6 +247,17 @@ func (c *fnCtx) callTranslated(cal *fnFunc, v *ast.CallExpr, pre *[]fnBind, want
 	var mutArgs []*fnVar
 	_ = snapVars
 	for i, p := range cal.params {
+		if p.ptrVars != nil {
+			// a read-only pointer parameter: the scalar fields the callee reads, of the record the argument denotes
+			x := c.plainVar(args[i])
+			if x == nil || x.typ.k != "struct" || x.typ.decl != p.ptrStruct {
+				c.lostAt(args[i], "pointer argument %s (must be a record variable of type %s)", src(args[i]), p.ptrStruct.Name.Name)
+			}
+			for _, f := range p.ptrFields {
+				s += " (" + x.typ.name + "_" + f + " " + x.name + ")"
+			}
+			continue
+		}
 		if p.variadic && !v.Ellipsis.IsValid() {
 			// items ...T: the remaining arguments as a list
 			var xs []string
@@ -1462,6 +1473,12 @@ func (c *fnCtx) rangeStmt(v *ast.RangeStmt, k func() term) term {
 		pre = append(pre, fnBind{pat: lim.name, e: "zlen " + xv.name, isLet: true})
 		if id, ok := v.Value.(*ast.Ident); ok && id.Name != "_" {
 			val := c.declare(id, t.elem)
+			if xv.distinctPtr {
+				if userKey != nil {
+					c.lostAt(v, "range over %s whose body assigns the index variable", xv.name)
+				}
+				val.aliasOf, val.aliasIdx = xv, key // stores through it are written back at once
+			}
 			ls.iterLoc = append(ls.iterLoc, val)
 			ls.bodyPre = func() []fnBind {
 				return []fnBind{{pat: val.name, m: tRaw{"go_get " + xv.name + " " + key.name}}}
